@@ -408,13 +408,16 @@ theorem collectPost_stage {cfg : Cfg} (sk : Bool) {fs : FS} (h : J cfg fs)
     have hE : B ++ [Ev.create .info, .commit .info .good, .create .lock]
         = (B ++ [Ev.create .info, .commit .info .good]) ++ [.create .lock] := by simp
     rw [hE]
-    have hck : ChecksOK (cfg.chrs.map (fun c => Act.load (.save c)) ++
-        evs ((B ++ [Ev.create .info, .commit .info .good]) ++ [.create .lock])) fs :=
-      checks_loads (fun c hc => (hgs c hc).2) (checks_evs _ _)
-    have hev : eventsOf (cfg.chrs.map (fun c => Act.load (.save c)) ++
-        evs ((B ++ [Ev.create .info, .commit .info .good]) ++ [.create .lock]))
+    generalize hL : (if cfg.highMemory = true then [] else cfg.chrs.map (fun c => Act.load (.save c))) = Lds
+    have hck : ChecksOK (Lds ++ evs ((B ++ [Ev.create .info, .commit .info .good]) ++ [.create .lock])) fs := by
+      subst hL; split
+      · exact checks_evs _ _
+      · exact checks_loads (fun c hc => (hgs c hc).2) (checks_evs _ _)
+    have hev : eventsOf (Lds ++ evs ((B ++ [Ev.create .info, .commit .info .good]) ++ [.create .lock]))
         = (B ++ [Ev.create .info, .commit .info .good]) ++ [.create .lock] := by
-      rw [eventsOf_loads, eventsOf_evs]
+      subst hL; split
+      · rw [List.nil_append, eventsOf_evs]
+      · rw [eventsOf_loads, eventsOf_evs]
     have hBT : (B ++ [Ev.create .info, .commit .info .good]).all (fun e => Tpost e.path) = true := by
       subst hB; simp [List.all_append, List.all_map, Function.comp_def, Ev.path, Tpost]
     have h1 : AllP (J cfg) fs (B ++ [Ev.create .info, .commit .info .good]) := by
